@@ -57,7 +57,13 @@ def run(tier, replay_file=None):
     R.cov["reregistration_histories"] = len(rereg)
     R.cov["bfs_histories"], R.cov["sim_histories"] = len(bfs), len(sets)
     probes = 0
-    for hist in bfs + sets:
+    import time as _time
+    t_end = _time.time() + (20 * 60 if quick else 40 * 60)        # the replays of one run are bounded in time (recorded when reached)
+    todo = sets + bfs[::7] + bfs if not quick else bfs + sets     # thorough: the long random histories and a stride of every family first
+    for hn, hist in enumerate(todo):
+        if _time.time() > t_end:
+            R.cov["time_budget_reached_histories_skipped"] = len(todo) - hn
+            break
         bad = scn_replay.replay(hist)
         R.add("traces_validated_against_impl")
         probes += sum(sum(len(v) for v in (h["all"].values() if isinstance(h["all"], dict) else [])) + 1 for h in hist)
